@@ -487,8 +487,27 @@ pub fn run_netto(case: &Case) -> Outcome {
     // (when the reader may get cancelled the peer waits for the end of the stream: there the
     // reader's end closes the socket as before)
     let hand_back = !cancel_reader;
+    // the witness: a coroutine that the reader wakes (semaphore) after every read that
+    // returned - whatever resumed the reader (readiness, its io time-out, a cancel re-check),
+    // a coroutine it makes ready has to run promptly, not at the next selector wake-up
+    let wsem = Arc::new(may::sync::Semphore::new(0));
+    let wdone = Arc::new(std::sync::atomic::AtomicBool::new(false));
+    let wposts: Arc<Mutex<Vec<u64>>> = Arc::new(Mutex::new(vec![]));
+    let wwakes: Arc<Mutex<Vec<u64>>> = Arc::new(Mutex::new(vec![]));
+    let witness = {
+        let (wsem, wdone, wwakes) = (wsem.clone(), wdone.clone(), wwakes.clone());
+        spawn(CO, "witness", move || loop {
+            wsem.wait();
+            if wdone.load(Ordering::SeqCst) {
+                break;
+            }
+            let t = sched::now_ns();
+            wwakes.lock().unwrap().push(t);
+        })
+    };
     let do_reads = {
         let (began, results, states, shared, reads) = (began.clone(), results.clone(), states.clone(), shared.clone(), reads.clone());
+        let (wsem, wposts) = (wsem.clone(), wposts.clone());
         move |actor: usize, from: usize, to: usize, own: bool| {
             let mut owned: Option<Socks> = if own { shared.lock().unwrap_or_else(|e| e.into_inner()).take() } else { None };
             let mut guard = if own { None } else { Some(shared.lock().unwrap_or_else(|e| e.into_inner())) };
@@ -523,6 +542,8 @@ pub fn run_netto(case: &Case) -> Outcome {
                     Err(_) => (2, 0),
                 };
                 results.lock().unwrap()[i] = Some((kind, bytes, vc, vr, t1 - t0));
+                wposts.lock().unwrap().push(sched::now_ns());
+                wsem.post();
                 states.leave(actor, i);
             }
             // a reader that ends normally hands its socket back for the final count of what
@@ -680,6 +701,9 @@ pub fn run_netto(case: &Case) -> Outcome {
         let (we, re) = (w.join(), r.join());
         check_stream(&mut out, conn, total, we, re);
     }
+    wdone.store(true, Ordering::SeqCst);
+    wsem.post();
+    let wend = witness.join();
     crate::child::settle();
     // ---------------- oracle ----------------
     match (&rend, cancel_reader) {
@@ -688,6 +712,20 @@ pub fn run_netto(case: &Case) -> Outcome {
         (e, _) => out.fail("reader-ended-abnormally", e.kind()),
     }
     let stalls = case.has_stall();
+    if !matches!(wend, End::Ok(())) {
+        out.fail("witness-ended-abnormally", wend.kind());
+    }
+    // without stall faults nothing keeps a worker from running a ready coroutine for long:
+    // the idle poll of a worker is 10 ms, a ready coroutine that waits 5 ms of virtual time
+    // (50 000 schedule points of others) sat in a run queue that nobody looked at
+    if !stalls {
+        let (p, w) = (wposts.lock().unwrap().clone(), wwakes.lock().unwrap().clone());
+        for (i, (tp, tw)) in p.iter().zip(w.iter()).enumerate() {
+            if tw.saturating_sub(*tp) > 5_000_000 {
+                out.fail("coroutine-made-ready-by-the-reader-not-run", format!("wake-up {i} posted at {tp} ns, the woken coroutine ran at {tw} ns"));
+            }
+        }
+    }
     if !matches!(send, End::Ok(())) {
         out.fail("successor-ended-abnormally", send.kind());
     }
